@@ -583,10 +583,10 @@ def rule_pure_forwarding(check, rule):
                         witness='Combination(Combination(f, g), h) calls f, g, h in that order')
 
 
-def rule_descriptor_rebinding(check, rule):
+def rule_descriptor_rebinding(check, rule, classes=None):
     """C13.R2: __get__ rebuilds an instance of the same type from the same stored parts and the re-bound wrapped object"""
     repo = check.repo
-    for ck in WRAPPER_CLASSES:
+    for ck in (classes or WRAPPER_CLASSES):
         ci = repo.cls(ck)
         get = ci.methods.get('__get__')
         init = ci.methods.get('__init__')
@@ -740,7 +740,8 @@ def rule_wrappers_enumeration(check, rule):
                     ys = [x for x, g in walk_effects(sp.effects) if x.kind == 'yield']
                     if ys and not miss:
                         y = ys[0].target
-                        if y[0] == 'E' and y[1][0] == 'A' and y[1][2] == '_sigtools__wrappers':
+                        cur = sp.env_in.get(fi.params()[0][0])
+                        if y[0] == 'E' and y[1][0] == 'A' and y[1][2] == '_sigtools__wrappers' and y[1][1] == cur:
                             ok_yield = True
                         nxt = sp.env_out.get(fi.params()[0][0])
                         if nxt is not None and nxt[0] == 'A' and nxt[2] == '__wrapped__':
@@ -774,8 +775,10 @@ def rule_as_forged_get(check, rule):
         subj = None
         if v[0] == 'C' and str(v[1]).endswith(':forged_signature') and len(v[2]) == 1:
             subj = v[2][0]
+        lits = dict(p.lits)
+        isn = lits.get(('isnone', inst))
         ok = subj is not None and (subj == ('IF', ('lit', ('isnone', inst), True), owner, inst) or subj == ('IF', ('lit', ('isnone', inst), False), inst, owner)
-                                   or subj in (inst, owner))
+                                   or (isn is True and subj == owner) or (isn is False and subj == inst))
         if ok:
             check.holds(rule, site_of(fi, fi.node), 'as_forged returns signature(instance, or the owner class when accessed on the class)', key=key)
         else:
